@@ -1,11 +1,12 @@
 """C01 - stream fidelity"""
-from ..scen_parser import tokenizer
+from ..scen_parser import tokenizer, selfcheck
 from ..scen_readinput import read_input
 
 ALL = ['tok.value', 'tok.consumed', 'tok.end', 'tok.garbage']
 
 
 def run(ctx):
+    selfcheck(ctx)
     n = 3 if ctx.quick else 4
     tokenizer(ctx, n, ALL, f'full alphabet n={n}')
     read_input(ctx, ['read.one_context_per_value'])
